@@ -229,6 +229,8 @@ def main(argv=None):
     import warnings
 
     warnings.filterwarnings("ignore")
+    if hasattr(sys, "set_int_max_str_digits"):
+        sys.set_int_max_str_digits(0)  # exact rationals of long products exceed Python's default conversion limit
 
     ap = argparse.ArgumentParser()
     ap.add_argument("prop")
